@@ -64,8 +64,33 @@ func setElem(t *ref.Type, dst reflect.Value, v *ref.Val) {
 			return
 		}
 		m := reflect.MakeMapWithSize(dst.Type(), len(v.M))
+		var dummies []reflect.Value
+		if MapHoles && len(v.M) > 0 && len(v.M) <= 6 {
+			// a map that has lived: an entry inserted before the real ones and deleted afterwards leaves an
+			// empty slot in front of live entries (what delete() does to applications' maps)
+			for cand := 1000; cand < 1010 && len(dummies) < 2; cand++ {
+				k := Nth(t.Key, cand)
+				if k == nil || k.K == ref.KDouble && math.IsNaN(math.Float64frombits(k.U)) {
+					continue // (a NaN key can never be deleted again)
+				}
+				clash := false
+				for _, e := range v.M {
+					if e[0] != nil && e[0].Canon() == k.Canon() {
+						clash = true
+					}
+				}
+				if !clash {
+					kv := Build(t.Key, k)
+					m.SetMapIndex(kv, reflect.Zero(dst.Type().Elem()))
+					dummies = append(dummies, kv)
+				}
+			}
+		}
 		for _, e := range v.M {
 			m.SetMapIndex(Build(t.Key, e[0]), Build(t.Elem, e[1]))
+		}
+		for _, kv := range dummies {
+			m.SetMapIndex(kv, reflect.Value{})
 		}
 		dst.Set(m)
 	case ref.KStruct:
@@ -74,6 +99,9 @@ func setElem(t *ref.Type, dst reflect.Value, v *ref.Val) {
 		panic("bad kind")
 	}
 }
+
+// MapHoles makes New build small maps with deleted entries in front of the live ones.
+var MapHoles bool
 
 func setStruct(s *ref.Struct, dst reflect.Value, v *ref.Val) {
 	StructGoType(s)
